@@ -19,7 +19,8 @@ package typeutil
 
 // The big-endian codec is described by an abstract decoder u64dec over byte strings (encoding/binary itself is outside
 // the verified code). BytesToUint64 is verified against the assumed contract of binary.BigEndian.Uint64
-// (/verif/specs/binary.spec): every 8-byte string is decoded by the library decoder, whole; Uint64ToBytes is assumed.
+// and binary.BigEndian.PutUint64 (/verif/specs/binary.spec): every 8-byte string is decoded by the library decoder,
+// whole; Uint64ToBytes returns a fresh 8-byte string that the library encoder filled last with exactly v.
 //@ func BytesToUint64
 //@   props C04 C02
 //@   ensures [eight-bytes-or-error] (len(b) == 8) <==> (r1 == nil)
@@ -27,8 +28,9 @@ package typeutil
 //@   ensures [zero-on-error] r1 != nil ==> r0 == 0
 //@   modifies nothing
 //@ func Uint64ToBytes
-//@   assumed
-//@   ensures len(result) == 8 && result != nil && uf("u64dec", str(result)) == v
+//@   props C04 C02
+//@   ensures [eight-bytes] len(result) == 8 && result != nil
+//@   ensures [decodes-back-to-v] uf("u64dec", str(result)) == v
 //@   modifies nothing
 
 // SubRealTimeByWallClock subtracts two UnixNano readings as int64 (wraps when they are more than 2^63 ns apart, e.g.
